@@ -11,7 +11,7 @@ from .fm import *
 
 E = 10
 HINT = {'pa': 10 ** 6, 'pb': 5 * 10 ** 5, 'F': 8 * 10 ** 5, 'C': 10 ** 5, 'F2': 10 ** 6, 'C2': 0, 'X_lp1': 3, 'X_usd': 0, 'X_om': 0, 'wa': 10 ** 6, 'T': 10 ** 7,
-        'amount': 10 ** 5, 'rate': 10 ** 5, 'exp_b': 5 * DAY, 'rate3': 10 ** 3, 'C3': 10 ** 3, 'pb2': 10 ** 5, 'wb': 10 ** 5, 'declared_epochs': 2, 'pe1': 10 ** 5, 'pe2': 2 * 10 ** 5, 'we': 352200}
+        'amount': 10 ** 5, 'rate': 10 ** 5, 'exp_b': 5 * DAY, 'rate3': 10 ** 3, 'C3': 10 ** 3, 'pb2': 10 ** 5, 'wb': 10 ** 5, 'declared_epochs': 2, 'pe1': 10 ** 5, 'pe2': 2 * 10 ** 5, 'we': 352200, 'paid_fee_denom': 10 ** 5 + 1000}
 DENOMS = (LP1, 'uusd', 'uom')
 
 
@@ -82,7 +82,7 @@ def world(I, weights_at=3):
 
 
 OPS = ['create_position', 'expand_position', 'close_full', 'close_partial', 'withdraw_unlocked', 'emergency_open', 'emergency_closed', 'claim', 'claim_until',
-       'create_farm', 'expand_farm', 'close_farm', 'close_lp_reward_farm', 'expand_by_pool_manager', 'create_by_pool_manager', 'close_one_of_two']
+       'create_farm', 'expand_farm', 'close_farm', 'close_lp_reward_farm', 'expand_by_pool_manager', 'create_by_pool_manager', 'close_one_of_two', 'create_farm_fee_denom']
 
 
 def run(I, ch, b, op, v):
@@ -126,6 +126,12 @@ def run(I, ch, b, op, v):
         b.set('dave', 'uusd', amt)
         b.set('dave', 'uom', 1000)
         return ch.execute('dave', FM, manage_farm('Create', params=farm_params(LP1, coin_v('uusd', amt), E + 1, E + 5)), [coin_v('uom', 1000), coin_v('uusd', amt)])
+    if op == 'create_farm_fee_denom':
+        # the reward is paid in the SAME denom as the creation fee: one coin of an arbitrary amount is attached for a declared reward `amt`
+        I.assume(amt >= 1000)
+        paid = I.sym('paid_fee_denom', lo=1, hi=U128 // 32)
+        b.set('dave', 'uom', paid)
+        return ch.execute('dave', FM, manage_farm('Create', params=farm_params(LP1, coin_v('uom', amt), E + 1, E + 5)), [coin_v('uom', paid)])
     if op == 'expand_farm':
         add = simp(v['rate'] * 2)                  # attached: two more epochs of emission
         decl = simp(v['rate'] * I.sym('declared_epochs', lo=1, hi=1000))        # declared in the message: any multiple of the rate
@@ -214,6 +220,10 @@ def _build(op):
             d['mints'].append(('dave', [('uusd', a), ('uom', 1000)]))
             d['txs'] = [('dave', Fm('create', params={'lp_denom': rj(LP1), 'start_epoch': E + 1, 'preliminary_end_epoch': E + 5, 'curve': None,
                                                       'farm_asset': coin_j('uusd', a), 'farm_identifier': None}), [('uom', 1000), ('uusd', a)])]
+        elif op == 'create_farm_fee_denom':
+            d['mints'].append(('dave', [('uom', m['paid_fee_denom'])]))
+            d['txs'] = [('dave', Fm('create', params={'lp_denom': rj(LP1), 'start_epoch': E + 1, 'preliminary_end_epoch': E + 5, 'curve': None,
+                                                      'farm_asset': coin_j('uom', a), 'farm_identifier': None}), [('uom', m['paid_fee_denom'])])]
         elif op == 'expand_farm':
             d['mints'].append(('fowner', [('uusd', rate * 2)]))
             d['txs'] = [('fowner', Fm('expand', params={'lp_denom': rj(LP1), 'start_epoch': None, 'preliminary_end_epoch': None, 'curve': None,
